@@ -858,6 +858,10 @@ func (g *gen) badLine(depth int) gline {
 var archNames = []string{"a.txt", "b.txt", "g", "d/c.txt", "d/e/f.txt", "sp ace.txt", "d2/x", "a.txt"}
 var archBodies = []string{"hello\n", "hello\n", "alpha beta\ngamma\n", "", "x\n", "one two three\ntwo\n", "two\n", "val=$X\n", "val=${Y}\n", ">hello\n", ">alpha beta\n>gamma\n"}
 
+// longLinePerMille: share of the generated scripts that contain a line of 64 KiB or more (every such
+// case travels hex-encoded to the model driver; the thorough tier lowers the share, not the count).
+var longLinePerMille = 50
+
 func genC01(rng *rand.Rand) *tcase {
 	g := &gen{rng: rng, st: newGst()}
 	g.fl = flags{cont: g.chance(50), explicitExec: g.chance(20), unique: g.chance(20), customCmds: g.chance(65), customCond: g.chance(50)}
@@ -896,7 +900,7 @@ func genC01(rng *rand.Rand) *tcase {
 	g.bgMode = g.chance(45)
 	// a very long line (around bufio.Scanner's 64 KiB token limit), mostly with a failing line after it
 	longAt, longLen := 0, 0
-	if g.chance(5) {
+	if g.rng.Intn(1000) < longLinePerMille {
 		if n < 3 {
 			n = 3 + g.rng.Intn(6)
 		}
